@@ -2,8 +2,8 @@ package descgen
 
 import (
 	"fmt"
-	"hash/fnv"
 	"math"
+	"math/big"
 	"sort"
 	"strings"
 
@@ -71,7 +71,7 @@ func optStr(s *string) string {
 	}
 	return some(Str(*s))
 }
-func zT(v int64) string { return fmt.Sprintf("(%d)%%Z", v) }
+func zT(v int64) string  { return fmt.Sprintf("(%d)%%Z", v) }
 func zU(v uint64) string { return fmt.Sprintf("(%d)%%Z", v) }
 func optZ(v *int64) string {
 	if v == nil {
@@ -81,16 +81,22 @@ func optZ(v *int64) string {
 }
 func fbits(f float64) string { return fmt.Sprintf("(%d)%%Z", math.Float64bits(f)) }
 
-// Tok is the opaque payload token of a message the reader copies through unchanged.
+// Tok is the payload token of a message the reader copies through unchanged (list rules, ext, entity
+// payloads, object / oneof rules). It is EXACT, not a hash: the natural number whose base-256 digits are
+// 0x01, the length of the type's full name (2 bytes), the full name, and the deterministic wire encoding
+// of the message. Two payloads have the same token iff they are the same type with the same encoding, so
+// "no rule lost" is compared on the payload itself (it used to be a 32-bit fnv hash).
 func Tok(m proto.Message) string {
 	b, err := proto.MarshalOptions{Deterministic: true}.Marshal(m)
 	if err != nil {
 		panic(err)
 	}
-	h := fnv.New32a()
-	h.Write([]byte(m.ProtoReflect().Descriptor().FullName()))
-	h.Write(b)
-	return fmt.Sprintf("%d", h.Sum32())
+	name := []byte(m.ProtoReflect().Descriptor().FullName())
+	buf := make([]byte, 0, 3+len(name)+len(b))
+	buf = append(buf, 1, byte(len(name)>>8), byte(len(name)))
+	buf = append(buf, name...)
+	buf = append(buf, b...)
+	return new(big.Int).SetBytes(buf).String()
 }
 
 func isNilMsg(m proto.Message) bool {
@@ -972,9 +978,9 @@ func rootTerm(r *schema_j5pb.RootSchema, x bool) (string, error) {
 // ---------------------------------------------------------------- what of schema.proto the export form covers
 
 const (
-	covDescend = iota // rendered member by member
-	covOpaque         // rendered as a token of the whole deterministic encoding
-	covKeyConst       // MapField.key_schema: must be the constant unconstrained string schema
+	covDescend  = iota // rendered member by member
+	covOpaque          // rendered as a token of the whole deterministic encoding
+	covKeyConst        // MapField.key_schema: must be the constant unconstrained string schema
 )
 
 func covSet(mode int, names ...string) map[string]int {
@@ -1000,50 +1006,50 @@ var bounds4 = covSet(covDescend, "minimum", "maximum", "exclusive_minimum", "exc
 // exportCovered lists, per message of j5.schema.v1, the fields RootTerm renders (and so the Coq export
 // form carries). A populated field outside this table is invisible to the model.
 var exportCovered = map[string]map[string]int{
-	"j5.schema.v1.RootSchema":            covSet(covDescend, "oneof", "object", "enum"),
-	"j5.schema.v1.Object":                covSet(covDescend, "name", "description", "entity", "properties", "any_member"),
-	"j5.schema.v1.EntityObject":          covSet(covDescend, "entity", "part"),
-	"j5.schema.v1.Oneof":                 covSet(covDescend, "name", "description", "properties"),
-	"j5.schema.v1.Enum":                  covSet(covDescend, "name", "description", "prefix", "options", "info"),
-	"j5.schema.v1.Enum.Option":           covSet(covDescend, "name", "number", "description", "info"),
-	"j5.schema.v1.Enum.OptionInfoField":  covSet(covDescend, "name", "label", "description"),
-	"j5.schema.v1.ObjectProperty":        covSet(covDescend, "schema", "name", "required", "explicitly_optional", "description", "proto_field"),
-	"j5.schema.v1.Field":                 covSet(covDescend, "any", "oneof", "object", "enum", "array", "map", "string", "integer", "float", "bool", "bytes", "decimal", "date", "timestamp", "key"),
-	"j5.schema.v1.Ref":                   covSet(covDescend, "package", "schema"),
-	"j5.schema.v1.AnyField":              covMerge(covSet(covDescend, "only_defined", "types"), covSet(covOpaque, "list_rules")),
-	"j5.schema.v1.ObjectField":           covMerge(covSet(covDescend, "ref", "flatten"), covSet(covOpaque, "rules", "ext")),
-	"j5.schema.v1.OneofField":            covMerge(covSet(covDescend, "ref"), covSet(covOpaque, "rules", "list_rules", "ext")),
-	"j5.schema.v1.EnumField":             covMerge(covSet(covDescend, "ref", "rules"), covSet(covOpaque, "list_rules", "ext")),
-	"j5.schema.v1.EnumField.Rules":       covSet(covDescend, "in", "not_in"),
-	"j5.schema.v1.ArrayField":            covSet(covDescend, "rules", "items", "ext"),
-	"j5.schema.v1.ArrayField.Rules":      covSet(covDescend, "min_items", "max_items", "unique_items"),
-	"j5.schema.v1.ArrayField.Ext":        covSet(covDescend, "single_form"),
-	"j5.schema.v1.MapField":              covMerge(covSet(covDescend, "item_schema", "rules", "ext"), covSet(covKeyConst, "key_schema")),
-	"j5.schema.v1.MapField.Rules":        covSet(covDescend, "min_pairs", "max_pairs"),
-	"j5.schema.v1.MapField.Ext":          covSet(covDescend, "single_form"),
-	"j5.schema.v1.StringField":           covMerge(covSet(covDescend, "format", "rules"), covSet(covOpaque, "list_rules")),
-	"j5.schema.v1.StringField.Rules":     covSet(covDescend, "pattern", "min_length", "max_length"),
-	"j5.schema.v1.FloatField":            covMerge(covSet(covDescend, "format", "rules"), covSet(covOpaque, "list_rules")),
-	"j5.schema.v1.FloatField.Rules":      bounds4,
-	"j5.schema.v1.IntegerField":          covMerge(covSet(covDescend, "format", "rules"), covSet(covOpaque, "list_rules")),
-	"j5.schema.v1.IntegerField.Rules":    bounds4,
-	"j5.schema.v1.BoolField":             covMerge(covSet(covDescend, "rules"), covSet(covOpaque, "list_rules")),
-	"j5.schema.v1.BoolField.Rules":       covSet(covDescend, "const"),
-	"j5.schema.v1.BytesField":            covSet(covDescend, "rules"),
-	"j5.schema.v1.BytesField.Rules":      covSet(covDescend, "min_length", "max_length"),
-	"j5.schema.v1.DecimalField":          covMerge(covSet(covDescend, "rules"), covSet(covOpaque, "list_rules")),
-	"j5.schema.v1.DecimalField.Rules":    bounds4,
-	"j5.schema.v1.DateField":             covMerge(covSet(covDescend, "rules"), covSet(covOpaque, "list_rules")),
-	"j5.schema.v1.DateField.Rules":       bounds4,
-	"j5.schema.v1.TimestampField":        covMerge(covSet(covDescend, "rules"), covSet(covOpaque, "list_rules")),
-	"j5.schema.v1.TimestampField.Rules":  bounds4,
-	"j5.schema.v1.KeyField":              covMerge(covSet(covDescend, "format", "entity"), covSet(covOpaque, "list_rules")),
-	"j5.schema.v1.KeyFormat":             covSet(covDescend, "informal", "custom", "uuid", "id62"),
-	"j5.schema.v1.KeyFormat.Custom":      covSet(covDescend, "pattern"),
-	"j5.schema.v1.KeyFormat.Informal":    {},
-	"j5.schema.v1.KeyFormat.UUID":        {},
-	"j5.schema.v1.KeyFormat.ID62":        {},
-	"j5.schema.v1.EntityKey":             covMerge(covSet(covDescend, "primary_key", "tenant_key"), covSet(covOpaque, "foreign_key")),
+	"j5.schema.v1.RootSchema":           covSet(covDescend, "oneof", "object", "enum"),
+	"j5.schema.v1.Object":               covSet(covDescend, "name", "description", "entity", "properties", "any_member"),
+	"j5.schema.v1.EntityObject":         covSet(covDescend, "entity", "part"),
+	"j5.schema.v1.Oneof":                covSet(covDescend, "name", "description", "properties"),
+	"j5.schema.v1.Enum":                 covSet(covDescend, "name", "description", "prefix", "options", "info"),
+	"j5.schema.v1.Enum.Option":          covSet(covDescend, "name", "number", "description", "info"),
+	"j5.schema.v1.Enum.OptionInfoField": covSet(covDescend, "name", "label", "description"),
+	"j5.schema.v1.ObjectProperty":       covSet(covDescend, "schema", "name", "required", "explicitly_optional", "description", "proto_field"),
+	"j5.schema.v1.Field":                covSet(covDescend, "any", "oneof", "object", "enum", "array", "map", "string", "integer", "float", "bool", "bytes", "decimal", "date", "timestamp", "key"),
+	"j5.schema.v1.Ref":                  covSet(covDescend, "package", "schema"),
+	"j5.schema.v1.AnyField":             covMerge(covSet(covDescend, "only_defined", "types"), covSet(covOpaque, "list_rules")),
+	"j5.schema.v1.ObjectField":          covMerge(covSet(covDescend, "ref", "flatten"), covSet(covOpaque, "rules", "ext")),
+	"j5.schema.v1.OneofField":           covMerge(covSet(covDescend, "ref"), covSet(covOpaque, "rules", "list_rules", "ext")),
+	"j5.schema.v1.EnumField":            covMerge(covSet(covDescend, "ref", "rules"), covSet(covOpaque, "list_rules", "ext")),
+	"j5.schema.v1.EnumField.Rules":      covSet(covDescend, "in", "not_in"),
+	"j5.schema.v1.ArrayField":           covSet(covDescend, "rules", "items", "ext"),
+	"j5.schema.v1.ArrayField.Rules":     covSet(covDescend, "min_items", "max_items", "unique_items"),
+	"j5.schema.v1.ArrayField.Ext":       covSet(covDescend, "single_form"),
+	"j5.schema.v1.MapField":             covMerge(covSet(covDescend, "item_schema", "rules", "ext"), covSet(covKeyConst, "key_schema")),
+	"j5.schema.v1.MapField.Rules":       covSet(covDescend, "min_pairs", "max_pairs"),
+	"j5.schema.v1.MapField.Ext":         covSet(covDescend, "single_form"),
+	"j5.schema.v1.StringField":          covMerge(covSet(covDescend, "format", "rules"), covSet(covOpaque, "list_rules")),
+	"j5.schema.v1.StringField.Rules":    covSet(covDescend, "pattern", "min_length", "max_length"),
+	"j5.schema.v1.FloatField":           covMerge(covSet(covDescend, "format", "rules"), covSet(covOpaque, "list_rules")),
+	"j5.schema.v1.FloatField.Rules":     bounds4,
+	"j5.schema.v1.IntegerField":         covMerge(covSet(covDescend, "format", "rules"), covSet(covOpaque, "list_rules")),
+	"j5.schema.v1.IntegerField.Rules":   bounds4,
+	"j5.schema.v1.BoolField":            covMerge(covSet(covDescend, "rules"), covSet(covOpaque, "list_rules")),
+	"j5.schema.v1.BoolField.Rules":      covSet(covDescend, "const"),
+	"j5.schema.v1.BytesField":           covSet(covDescend, "rules"),
+	"j5.schema.v1.BytesField.Rules":     covSet(covDescend, "min_length", "max_length"),
+	"j5.schema.v1.DecimalField":         covMerge(covSet(covDescend, "rules"), covSet(covOpaque, "list_rules")),
+	"j5.schema.v1.DecimalField.Rules":   bounds4,
+	"j5.schema.v1.DateField":            covMerge(covSet(covDescend, "rules"), covSet(covOpaque, "list_rules")),
+	"j5.schema.v1.DateField.Rules":      bounds4,
+	"j5.schema.v1.TimestampField":       covMerge(covSet(covDescend, "rules"), covSet(covOpaque, "list_rules")),
+	"j5.schema.v1.TimestampField.Rules": bounds4,
+	"j5.schema.v1.KeyField":             covMerge(covSet(covDescend, "format", "entity"), covSet(covOpaque, "list_rules")),
+	"j5.schema.v1.KeyFormat":            covSet(covDescend, "informal", "custom", "uuid", "id62"),
+	"j5.schema.v1.KeyFormat.Custom":     covSet(covDescend, "pattern"),
+	"j5.schema.v1.KeyFormat.Informal":   {},
+	"j5.schema.v1.KeyFormat.UUID":       {},
+	"j5.schema.v1.KeyFormat.ID62":       {},
+	"j5.schema.v1.EntityKey":            covMerge(covSet(covDescend, "primary_key", "tenant_key"), covSet(covOpaque, "foreign_key")),
 }
 
 // ExportCoverage walks an exported schema and returns every populated field of a j5.schema.v1 message
